@@ -636,15 +636,19 @@ class XsdAttributeGroup(
                     yield k
 
     def iter_value_constraints(self, use_defaults: bool = True) -> Iterator[tuple[str, str]]:
+        # A prohibited use is not a use: it supplies no value, also when a
+        # default/fixed value is inherited from the referenced declaration.
         if use_defaults:
             for k, v in self._attribute_group.items():
-                if v.fixed is not None and k:
+                if not k or v.use == 'prohibited':
+                    continue
+                elif v.fixed is not None:
                     yield k, v.fixed
-                elif v.default is not None and k:
+                elif v.default is not None:
                     yield k, v.default
         else:
             for k, v in self._attribute_group.items():
-                if v.fixed is not None and k:
+                if v.fixed is not None and k and v.use != 'prohibited':
                     yield k, v.fixed
 
     def iter_components(self, xsd_classes: ComponentClassType = None) \
@@ -706,7 +710,7 @@ class XsdAttributeGroup(
                     context.validation_error(validation, self, reason, obj)
                     continue
             else:
-                if xsd_attribute.use == 'prohibited' and xsd_attribute.fixed is None:
+                if xsd_attribute.use == 'prohibited':
                     if None in self and self._attribute_group[None].is_matching(name):
                         # A prohibited use is not a use: the attribute is validated
                         # by the wildcard that admits its name.
